@@ -615,6 +615,7 @@ pub fn run(ctx: &crate::RunCtx) -> (Summary, Vec<Violation>) {
                     sink: sink.into(),
                     ops: seq,
                 };
+                crate::progress::begin(&|| serde_json::to_value(&case).unwrap());
                 sum.cases += 1;
                 if offset % 8 != 0 || !matches!(op, Op::Align) {
                     sum.distinct_nontrivial += 1;
@@ -663,6 +664,7 @@ pub fn run(ctx: &crate::RunCtx) -> (Summary, Vec<Violation>) {
             sink: if r.chance(0.5) { "u8" } else { "u64" }.into(),
             ops,
         };
+        crate::progress::begin(&|| serde_json::to_value(&case).unwrap());
         sum.cases += 1;
         let h = crate::rng::fnv(&serde_json::to_string(&case).unwrap());
         if seen.insert(h) {
@@ -700,6 +702,7 @@ pub fn run(ctx: &crate::RunCtx) -> (Summary, Vec<Violation>) {
             sink: "required".into(),
             ops,
         };
+        crate::progress::begin(&|| serde_json::to_value(&case).unwrap());
         sum.cases += 1;
         let h = crate::rng::fnv(&serde_json::to_string(&case).unwrap());
         if seen.insert(h) {
@@ -753,6 +756,7 @@ pub fn run(ctx: &crate::RunCtx) -> (Summary, Vec<Violation>) {
                     prefix_bits,
                     after_failed_write,
                 };
+                crate::progress::begin(&|| serde_json::to_value(&case).unwrap());
                 sum.cases += 1;
                 sum.distinct_nontrivial += 1;
                 *sum.ops_hist.entry(format!("C_{sink}{}", if prefix_bits > 0 { "_unaligned_start" } else if after_failed_write { "_after_failed_write" } else { "" })).or_default() += 1;
